@@ -53,7 +53,13 @@ def run_property(prop, tier, seed, jobs=None, only=None):
     if nproc > 1:
         ctxm = mp.get_context("fork")
         with ctxm.Pool(nproc, maxtasksperchild=8) as pool:
-            results = pool.map(_worker, joblist, chunksize=1)
+            results = []
+            for r in pool.imap_unordered(_worker, joblist, chunksize=1):
+                results.append(r)
+                if os.environ.get("VERIF_VERBOSE"):
+                    print(f"  .. {r.get('harness')} {r.get('cfg')} paths={r.get('paths')} obl={r.get('obligations')} "
+                          f"wall={r.get('wall', 0):.1f}s inconcl={len(r.get('inconclusive', []))} viol={len(r.get('violations', []))}",
+                          flush=True)
     else:
         results = [_worker(j) for j in joblist]
     return finish(prop, tier, seed, mod, tasks, results, time.time() - t0)
